@@ -167,6 +167,16 @@ func isUnlikelyCandidate(node *html.Node) bool {
 	return false
 }
 
+// removeUnlikelyDescendants removes the unlikely candidates inside an element that
+// is put into the output as a whole, without its descendants being visited.
+func removeUnlikelyDescendants(node *html.Node) {
+	for _, descendant := range dom.GetElementsByTagName(node, "*") {
+		if descendant.Parent != nil && isUnlikelyCandidate(descendant) {
+			descendant.Parent.RemoveChild(descendant)
+		}
+	}
+}
+
 func (dc *DomConverter) visitElementNodeHandler(node *html.Node) bool {
 	// In original dom-distiller they skip invisible or uninteresting elements.
 	// Unfortunately it's impossible to do that perfectly here (NEED-COMPUTE-CSS).
@@ -195,14 +205,11 @@ func (dc *DomConverter) visitElementNodeHandler(node *html.Node) bool {
 			return false
 		}
 
-		// Figures and tables may be put into the output as a whole, without their
-		// descendants being visited: skip the unlikely candidates inside them now.
-		if tagName == "figure" || tagName == "table" {
-			for _, descendant := range dom.GetElementsByTagName(node, "*") {
-				if descendant.Parent != nil && isUnlikelyCandidate(descendant) {
-					descendant.Parent.RemoveChild(descendant)
-				}
-			}
+		// Figures may be put into the output as a whole, without their descendants
+		// being visited: skip the unlikely candidates inside them now. (The same is
+		// done for a data table, once it is known to be one.)
+		if tagName == "figure" {
+			removeUnlikelyDescendants(node)
 		}
 	}
 
@@ -281,9 +288,15 @@ func (dc *DomConverter) visitElementNodeHandler(node *html.Node) bool {
 		return false
 
 	case "table":
+		// The table is classified as the page has it: what kind of table it is doesn't
+		// depend on the unlikely candidates that are about to be skipped (some of the
+		// roles that make an element unlikely are landmark roles for the classifier).
 		tableType, _ := dc.tableClassifier.Classify(node)
 		dc.logTableInfo(node, tableType)
 		if tableType == tableclass.Data {
+			if dc.hasFlag(SkipUnlikelies) {
+				removeUnlikelyDescendants(node)
+			}
 			dc.builder.AddDataTable(node)
 			return false
 		}
